@@ -73,12 +73,12 @@ def _short(v):
     return {"inside": "in", "outside": "out", "notinside": "nin", "end": "end", "any": "any"}[v]
 
 
-def _vec(fam, roots, k, bounds="shared", wsign=None, budget=None, oracle=True):
+def _vec(fam, roots, k, bounds="shared", wsign=None, budget=None, oracle=True, interval=True):
     n = len(roots)
     ws = "" if wsign is None else "-w" + "".join("p" if x > 0 else "m" for x in (wsign if isinstance(wsign, list) else [wsign]))
     return dict(id="vec%d-%s-%s-%s-k%d%s" % (n, fam, bounds, "_".join(_short(r) for r in roots), k, ws), family=fam,
                 scale="sym" if fam == "jump" else [1e3, -1.0, 1e-3][:n], root=list(roots), k=k, tol="sym", nvec=n, bounds=bounds,
-                wsign=wsign, oracle=oracle, budget=budget)
+                wsign=wsign, oracle=oracle, interval=interval, budget=budget)
 
 
 def instances(tier):
@@ -94,20 +94,23 @@ def instances(tier):
                             nvec=0, budget=bq))
     for root in ("inside", "outside", "end"):
         out.append(dict(id="lin-ssym-%s-k%d" % (root, k_lin), family="linear", scale="sym", root=root, k=k_lin, tol="sym", nvec=0, budget=bq))
-    out.append(dict(id="lin-p1000-inside-k%d-toldefault" % k_lin, family="linear", scale=1e3, root="inside", k=k_lin, tol=None, nvec=0, budget=bq))
+    out.append(dict(id="lin-p1000-inside-k%d-toldefault" % k_lin, family="linear", scale=1e3, root="inside", k=k_lin, tol=None, nvec=0,
+                    interval=False, budget=bq))
     # ---- scalar solver, jump family (symbolic heights u, v)
     for root in ("inside", "notinside"):
         for ws in ((None,) if q or root == "notinside" else (1, -1)):
             out.append(dict(id="jump-%s-k%d%s" % (root, k_jump, "" if ws is None else "-w" + "pm"[ws < 0]), family="jump", scale="sym", root=root,
                             k=k_jump, tol="sym", nvec=0, wsign=ws, budget=bq))
-    out.append(dict(id="jump-inside-k3-toldefault", family="jump", scale="sym", root="inside", k=3, tol=None, nvec=0, budget=bq))
+    out.append(dict(id="lin-p1000-inside-k%d-tolsmall" % k_lin, family="linear", scale=1e3, root="inside", k=k_lin, tol="small", nvec=0, budget=bq))
+    out.append(dict(id="jump-inside-k3-tolsmall", family="jump", scale="sym", root="inside", k=3, tol="small", nvec=0, budget=bq))
+    out.append(dict(id="jump-inside-k3-toldefault", family="jump", scale="sym", root="inside", k=3, tol=None, nvec=0, interval=False, budget=bq))
     for root in ("inside", "notinside"):       # the same family written as an if-then-else term instead of a forking `if`
         out.append(dict(id="jump-ite-%s-k%d" % (root, 3 if q else 4), family="jump", scale="sym", root=root, k=3 if q else 4, tol="sym",
                         nvec=0, ite=True, budget=bq))
     # ---- vector solver against the scalar one (instances split by root position / bracket orientation for parallelism)
     if q:
-        out.append(_vec("linear", ["any"], 3, budget=bq))
-        out.append(_vec("jump", ["any"], 2, budget=bq))
+        out.append(_vec("linear", ["any"], 3, budget=bq, interval=False))
+        out.append(_vec("jump", ["any"], 2, budget=bq, interval=False))
         for roots in (["inside", "inside"], ["inside", "outside"], ["outside", "inside"], ["end", "inside"]):
             out.append(_vec("linear", roots, 2, budget=bq))
         for roots in (["inside", "inside"], ["inside", "outside"]):
@@ -120,23 +123,23 @@ def instances(tier):
             out.append(_vec("linear", ["inside", "inside", "outside"], 1, wsign=ws, budget=bq))
         for ws in ([1, 1], [1, -1]):
             out.append(_vec("jump", ["inside", "inside"], 0, bounds="percomp", wsign=ws, budget=bq))
-        out.append(_vec("jump", ["inside", "inside", "notinside"], 0, wsign=1, budget=bq, oracle=False))
+        out.append(_vec("jump", ["inside", "inside", "outside"], 0, wsign=1, budget=dict(bq, wall_s=80), oracle=False))
     else:
-        out.append(_vec("linear", ["any"], 8, budget=bq))
-        out.append(_vec("jump", ["any"], 5, budget=bq))
+        out.append(_vec("linear", ["any"], 8, budget=bq, interval=False))
+        out.append(_vec("jump", ["any"], 5, budget=bq, interval=False))
         out.append(_vec("linear", ["any", "any"], 3, budget=bq))
         out.append(_vec("linear", ["any", "any"], 3, bounds="percomp", budget=bq))
         for ws in (1, -1):
-            out.append(_vec("jump", ["inside", "inside"], 2, wsign=ws, budget=bq))
+            out.append(_vec("jump", ["inside", "inside"], 2, wsign=ws, budget=bq, oracle=False))
             out.append(_vec("jump", ["inside", "notinside"], 2, wsign=ws, budget=bq))
             out.append(_vec("linear", ["any", "any", "any"], 2, wsign=ws, budget=bq))
-            out.append(_vec("jump", ["inside", "inside", "inside"], 0, wsign=ws, budget=bq))
-            out.append(_vec("jump", ["inside", "inside", "notinside"], 1, wsign=ws, budget=bq))
+            out.append(_vec("jump", ["inside", "inside", "inside"], 0, wsign=ws, budget=bq, oracle=False))
+            out.append(_vec("jump", ["inside", "inside", "notinside"], 0, wsign=ws, budget=bq))
         for ws in ([1, 1], [1, -1], [-1, 1], [-1, -1]):
             out.append(_vec("jump", ["inside", "inside"], 1, bounds="percomp", wsign=ws, budget=bq))
     # ---- two-root quadratics (thorough only; the inverse-quadratic step leaves quotient terms: may end inconclusive)
     if not q:
-        bquad = dict(wall_s=500, max_paths=20000, max_branches=3000)
+        bquad = dict(wall_s=400, max_paths=20000, max_branches=3000)
         for (s, roots) in ((1.0, ("one-inside", "both-inside", "none-inside")), (-1e3, ("one-inside",))):
             for root in roots:
                 for ws in (1, -1):
@@ -287,6 +290,11 @@ def _tolerance(c, inst):
     t = inst.get("tol", "sym")
     if t is None:
         return None, TOL_MIN
+    if t == "small":       # below the floor the code applies (tol < D.epsilon -> D.epsilon): the effective tolerance is the floor
+        tol = c.real("tol")
+        c.assume(tol >= EPS64)
+        c.assume(tol < TOL_MIN)
+        return tol, TOL_MIN
     if t == "sym":
         tol = c.real("tol")
         c.assume(tol >= TOL_MIN)
@@ -390,7 +398,6 @@ def _between(c, lo, x, hi):
 
 def _oracle(c, P, fn, a, b, tol, x, ok, interval=None, ncalls=None):
     """the C14 assertions for one (function, bracket, result)"""
-    regions_flag = None
     fa, fb = fn.val(a), fn.val(b)
     bracketed = c.lt(fa * fb, 0)
     if not _finite(x):
@@ -413,7 +420,6 @@ def _oracle(c, P, fn, a, b, tol, x, ok, interval=None, ncalls=None):
     # (3)
     c.check(P + ".success_means_root_within_tol", _implies(c, ok, c.any([small, near])))
     # (4) no sign change in the bracket and no end-point root (to within tol) => no success
-    lo_hi = (a, b)
     nosc = c.all([_not(c, fn.sign_change_in(a, b)), _not(c, fn.sign_change_in(b, a))])
     big_ends = c.all([_not(c, c.le(absval(c, fa), tol)), _not(c, c.le(absval(c, fb), tol))])
     c.check(P + ".no_sign_change_no_success", _implies(c, c.all([nosc, big_ends]), _not(c, ok)))
@@ -421,27 +427,33 @@ def _oracle(c, P, fn, a, b, tol, x, ok, interval=None, ncalls=None):
     flat_success = c.all([ok, small, inside])
     c.check(P + ".no_sign_change_no_success_literal", _implies(c, c.all([nosc, c.lt(0, fa * fb)]), _not(c, ok)),
             regions={KEY: flat_success})
-    # unwinding assertion
-    if interval is not None:
+    # unwinding assertion: under |b - a| <= 2^k * tol the loop must be left by convergence, not by the evaluation cap
+    capped = ncalls is not None and ncalls >= CAP
+    if not capped:
+        left_by_convergence = True
+    elif interval is not None:
         ia, ib = _num(c, interval[0]), _num(c, interval[1])
-        fib = fn.val(ib)
-        conv = c.any([c.eq(fib, 0), c.lt(absval(c, ib - ia), tol)])
-        capped = ncalls is not None and ncalls >= CAP
-        c.check(P + ".terminates_before_the_iteration_cap", c.any([not capped, conv]) if capped else True,
-                info=dict(function_evaluations=ncalls))
+        left_by_convergence = c.any([c.eq(fn.val(ib), 0), c.lt(absval(c, ib - ia), tol)])
+    else:
+        left_by_convergence = False
+    c.check(P + ".terminates_before_the_iteration_cap", left_by_convergence, info=dict(function_evaluations=ncalls))
 
 
-def _solve_scalar(c, P, fn, a, b, tol_arg):
+def _solve_scalar(c, P, fn, a, b, tol_arg, interval=True):
+    """run the real brentsroot; interval=True takes the `return_interval` return statement, False the plain one"""
     from desolver.utilities import optimizer as opt
     n0 = fn.calls
-    st, r = run(opt.brentsroot, fn, [a, b], tol_arg, False, True)
+    if interval:
+        st, r = run(opt.brentsroot, fn, [a, b], tol_arg, False, True)
+    else:
+        st, r = run(opt.brentsroot, fn, [a, b], tol_arg)
     if st != "ok":
         c.check(P + ".returns", False, info=repr(r) if st == "exc" else "does not terminate")
         return None
     ncalls = fn.calls - n0
-    if len(r) == 2:       # early 'no bracket' return has no interval
+    if len(r) == 2:       # plain form, or the early 'no bracket' return (which never carries an interval)
         x, ok = r
-        return _num(c, x), _flag(c, ok), None, ncalls
+        return _num(c, x), _flag(c, ok), None, ncalls - (0 if interval else 1)
     x, ok, (ia, ib) = r
     return _num(c, x), _flag(c, ok), (ia, ib), ncalls - 1     # the return statement evaluates f(b) once more
 
@@ -456,7 +468,7 @@ def scenario(c, inst):
         a, w = _bracket(c, inst, tol)
         b = a + w
         fn = _make_fn(c, inst, a, w)
-        res = _solve_scalar(c, "c14", fn, a, b, tol_arg)
+        res = _solve_scalar(c, "c14", fn, a, b, tol_arg, interval=inst.get("interval", True))
         if res is None:
             return
         x, ok, interval, ncalls = res
@@ -487,11 +499,19 @@ def _vector(c, inst, n, tol_arg, tol):
     else:
         lb = c.array([a for a, w in brs])
         ub = c.array([a + w for a, w in brs])
-    st, r = run(opt.brentsrootvec, list(fns), [lb, ub], tol_arg, False, True)
+    with_interval = inst.get("interval", True)
+    if with_interval:
+        st, r = run(opt.brentsrootvec, list(fns), [lb, ub], tol_arg, False, True)
+    else:
+        st, r = run(opt.brentsrootvec, list(fns), [lb, ub], tol_arg)
     if st != "ok":
         c.check("c14.vec.returns", False, info=repr(r) if st == "exc" else "does not terminate")
         return
-    xv, okv, (iav, ibv) = r
+    if with_interval:
+        xv, okv, (iav, ibv) = r
+    else:
+        xv, okv = r
+        iav = ibv = None
     shape_ok = tuple(np.shape(xv)) == (n,) and tuple(np.shape(okv)) == (n,)
     c.check("c14.vec.result_shape", shape_ok, info=dict(x=repr(np.shape(xv)), ok=repr(np.shape(okv))))
     if not shape_ok:
@@ -502,8 +522,8 @@ def _vector(c, inst, n, tol_arg, tol):
         fn = fns[i]
         x, ok = _num(c, xv[i]), _flag(c, okv[i])
         if inst.get("oracle", True):
-            _oracle(c, "c14.vec", fn, a, b, tol, x, ok, (iav[i], ibv[i]), fn.calls)
-        res = _solve_scalar(c, "c14", fn, a, b, tol_arg)
+            _oracle(c, "c14.vec", fn, a, b, tol, x, ok, (iav[i], ibv[i]) if iav is not None else None, fn.calls)
+        res = _solve_scalar(c, "c14", fn, a, b, tol_arg, interval=not with_interval)
         if res is None:
             continue
         xs, oks, _, _ = res
